@@ -114,6 +114,19 @@ def run_case(case):
                             depth=(0, 3), levels=(None, None, 1, 2, 3),
                             kinds=KINDS, tests_per_class=(1, 4),
                             p_flat=0.25)
+    broken = None
+    if rng.random() < 0.2:
+        # one more test module that cannot be loaded: it raises at import,
+        # or leaves through sys.exit() the way a script without the
+        # __name__ guard does - every other selected test still runs once,
+        # in every mode, and the listing still lists them
+        broken = rng.choice([
+            {'what': 'raise', 'exc': 'ImportError'},
+            {'what': 'raise', 'exc': 'SyntaxError'},
+            {'what': 'sysexit', 'code': 0}, {'what': 'sysexit', 'code': 3}])
+        spec['modules'].append({
+            'name': '%s_zx.tests' % prefix, 'file': '%s_zx/tests.py' % prefix,
+            'fault': broken, 'suite': {'t': 'suite', 'ch': []}})
     plan = {}
     if rng.random() < 0.5:
         plan = {'layers': {}}
@@ -291,6 +304,10 @@ def run_case(case):
         C('repeat_cases')
     if mult:
         C('parametrised_instance_cases')
+    if broken:
+        C('worlds_with_an_unloadable_module')
+        if broken['what'] == 'sysexit':
+            C('worlds_with_a_module_that_exits_at_import')
     if opts.get('package'):
         C('package_cases')
         if len(set(opts['package'])) > 1:
